@@ -402,6 +402,8 @@ H("conn_poll_transmit_gates_native", ["C07", "C12"], "replay-only", "connection:
   [("mode", "u8")], 4, [], ["Connection::poll_transmit"], "native replay body of E2 slice query e2_poll_transmit_new_datagram_gate_slice")
 H("conn_on_packet_acked_native", ["C12"], "replay-only", "connection::on_packet_acked_native",
   [("eliciting", "bool")], 4, [], ["Connection::on_packet_acked", "Connection::remove_in_flight"], "native replay body of E2 slice query e2_on_packet_acked_slice")
+H("endpoint_new_cid_collision_native", ["C09"], "replay-only", "endpoint::new_cid_collision_native",
+  [("x", "u8")], 4, [], ["Endpoint::new_cid"], "native replay body of E2 query e2_endpoint_new_cid_no_overwrite")
 H("conn_peer_params_cid_auth_native", ["C14", "C04"], "replay-only", "connection::peer_params_cid_auth_native",
   [("server", "bool"), ("which", "u8")], 4, [], ["Connection::handle_peer_params"], "native replay body of E2 query e2_peer_params_cid_auth")
 
